@@ -668,6 +668,283 @@ def unit_witnesses(ctx, scripted):
     ctx.correspond("witness_histories", "Model.Ident", "show_history", "(cfg * list op)", cases)
 
 
+# ------------------------------------------------------------------ freshness across processes (real random source)
+class _Rec(object):
+    """stand-in for ctx inside a forked child: records what World reports, shipped back through the pipe"""
+    def __init__(self):
+        self.fails, self.counts = [], {}
+
+    def count(self, k, n=1):
+        self.counts[k] = self.counts.get(k, 0) + n
+
+    def oracle_fail(self, key, what, rep):
+        self.fails.append((key, what, rep))
+
+    def nontriv(self, o):
+        pass
+
+    def sample(self, o, limit=6):
+        pass
+
+
+N_WORKERS, N_IDS = 3, 5
+
+
+def worker_history(ctx, tag):
+    """what ONE process does: its own dict-backed IdentDB, N_IDS transient and N_IDS persistent identifiers for
+    different users through the public methods and the REAL digest source (no script), then every persistent
+    call once more (stability).  Returns (transient texts, persistent texts, correspondence case, World)."""
+    users = ["%s-user%d" % (tag, j) for j in range(N_IDS)]
+    w = World(ctx, False, users=users)
+    tt, pt = [], []
+    for j, u in enumerate(users):
+        r = w.apply(("transient", u, "sp%d" % (j % 2 + 1), "", []))
+        tt.append(r.text if isinstance(r, NameID) else repr(r))
+    for j, u in enumerate(users):
+        r = w.apply(("persistent", u, "sp1", "", []))
+        pt.append(r.text if isinstance(r, NameID) else repr(r))
+    for j, u in enumerate(users):
+        w.apply(("persistent", u, "sp1", "", []))
+    return tt, pt, w.case("worker:" + tag), w
+
+
+def _child_main(tag, wfd):
+    import pickle
+    import traceback
+    rc = 0
+    try:
+        rec = _Rec()
+        tt, pt, case, _w = worker_history(rec, tag)
+        from saml2_tophat import s_utils
+        msg = dict(tag=tag, pid=os.getpid(), tt=tt, pt=pt, case=case, fails=rec.fails, counts=rec.counts,
+                   rndstr=[s_utils.rndstr(24) for _ in range(3)], rndbytes=[s_utils.rndbytes(24) for _ in range(3)],
+                   sid=[s_utils.sid() for _ in range(2)])
+    except BaseException:      # noqa
+        msg, rc = dict(tag=tag, error=traceback.format_exc()), 3
+    try:
+        data = pickle.dumps(msg, 2)
+        while data:
+            n = os.write(wfd, data)
+            data = data[n:]
+        os.close(wfd)
+    finally:
+        os._exit(rc)
+
+
+def fork_round(tags):
+    """fork len(tags) children NOW (they inherit whatever state the package holds in memory); each runs
+    worker_history on its own IdentDB and ships the result back through its pipe"""
+    import pickle
+    import sys
+    sys.stdout.flush()
+    sys.stderr.flush()
+    kids = []
+    for tag in tags:
+        rfd, wfd = os.pipe()
+        pid = os.fork()
+        if pid == 0:
+            os.close(rfd)
+            for r2, _p, _t in kids:
+                os.close(r2)
+            _child_main(tag, wfd)
+        os.close(wfd)
+        kids.append((rfd, pid, tag))
+    out = []
+    for rfd, pid, tag in kids:
+        buf = b""
+        while True:
+            chunk = os.read(rfd, 1 << 16)
+            if not chunk:
+                break
+            buf += chunk
+        os.close(rfd)
+        os.waitpid(pid, 0)
+        try:
+            out.append(pickle.loads(buf))
+        except Exception as e:      # noqa
+            out.append(dict(tag=tag, error="no result from the child: %r" % e))
+    return out
+
+
+SPAWN_SRC = r"""
+import json, sys
+from saml2_tophat.ident import IdentDB
+from saml2_tophat import s_utils
+idb = IdentDB({})
+tt = [idb.transient_nameid("user%d" % j, "sp1", "").text for j in range(3)]
+pt = [idb.persistent_nameid("user%d" % j, "sp1", "").text for j in range(3)]
+print(json.dumps(dict(tt=tt, pt=pt, rndstr=[s_utils.rndstr(24) for _ in range(3)], sid=[s_utils.sid() for _ in range(2)])))
+"""
+
+
+def spawn_round(n):
+    """n FRESH interpreters (same environment, same hash seed) started at the same moment"""
+    import subprocess
+    import sys
+    env = dict(os.environ)
+    env["PYTHONHASHSEED"] = "0"
+    ps = [subprocess.Popen([sys.executable, "-c", SPAWN_SRC], stdout=subprocess.PIPE, stderr=subprocess.PIPE, env=env) for _ in range(n)]
+    out = []
+    for k, p in enumerate(ps):
+        so, se = p.communicate(timeout=120)
+        try:
+            d = json.loads(so.decode())
+            d["tag"] = "spawn%d" % k
+        except Exception:       # noqa
+            d = dict(tag="spawn%d" % k, error=se.decode("utf-8", "replace")[-800:])
+        out.append(d)
+    return out
+
+
+class _Frozen(object):
+    """every clock the time module offers stands still, os.getpid is constant, and the global `random` is re-seeded
+    with a constant by the caller: whatever a value drawn inside still varies with is the OS source"""
+    NAMES = ["time", "time_ns", "monotonic", "monotonic_ns", "perf_counter", "perf_counter_ns", "process_time", "process_time_ns"]
+
+    def __enter__(self):
+        import time
+        self.time, self.saved = time, {}
+        for n in self.NAMES:
+            if hasattr(time, n):
+                self.saved[n] = getattr(time, n)
+                v = 1700000000 * (10 ** 9 if n.endswith("_ns") else 1)
+                setattr(time, n, (lambda v=v, isf=not n.endswith("_ns"): float(v) if isf else v))
+        self.getpid = os.getpid
+        os.getpid = lambda: 4242
+        return self
+
+    def __exit__(self, *a):
+        for n, f in self.saved.items():
+            setattr(self.time, n, f)
+        os.getpid = self.getpid
+
+
+def _draws():
+    """the sources the identifier text comes from, as callables returning one value"""
+    from saml2_tophat import s_utils
+    return [
+        ("rndstr", lambda: s_utils.rndstr(32)),
+        ("rndstr-alphabet", lambda: s_utils.rndstr(32, "abcdefghijklmnop")),
+        ("rndbytes", lambda: s_utils.rndbytes(32)),
+        ("sid", lambda: s_utils.sid()),
+        ("IdentDB._create_id", lambda: IdentDB({})._create_id(TRANSIENT, "", "sp1")),
+        ("IdentDB.create_id", lambda: IdentDB({}).create_id(PERSISTENT, "nq", "sp1")),
+        ("transient_nameid", lambda: IdentDB({}).transient_nameid("u1", "sp1", "").text),
+        ("persistent_nameid", lambda: IdentDB({}).persistent_nameid("u1", "sp1", "").text),
+    ]
+
+
+def unit_os_source(ctx):
+    """cheap behavioural test: the digest source must not follow anything a second process can share with this
+    one - the state of the global `random` generator (constant seed before each of two calls), the clock, the pid"""
+    import random as _random
+    state = _random.getstate()
+    try:
+        for name, f in _draws():
+            for mode in ("seeded", "seeded+frozen-clock-and-pid"):
+                vals = []
+                for _ in range(3):
+                    _random.seed(20240917)
+                    if mode == "seeded":
+                        vals.append(_call(f))
+                    else:
+                        with _Frozen():
+                            vals.append(_call(f))
+                ctx.count("os-source:%s:%s" % (name, mode))
+                bad = [v for v in vals if isinstance(v, Exn)]
+                if bad:
+                    ctx.oracle_fail("os-source:%s:raises-%s" % (name, bad[0].name), "%s raises %s (%s)" % (name, bad[0].name, mode),
+                                    {"unit": "os-source", "draw": name, "mode": mode})
+                elif len(set(vals)) != len(vals):
+                    ctx.oracle_fail("os-source:%s:repeats-when-%s" % (name, mode),
+                                    "%s yields %r on three calls each preceded by random.seed(constant) (%s): the value follows state "
+                                    "that a forked or simultaneously started process shares" % (name, vals, mode),
+                                    {"unit": "os-source", "draw": name, "mode": mode})
+                else:
+                    ctx.nontriv(("os-source", name, mode))
+    finally:
+        _random.setstate(state)
+
+
+def _check_disjoint(ctx, procs, how):
+    """procs: list of dict(tag, tt, pt, [rndstr, rndbytes, sid]); every text of every process must be different"""
+    rep = {"unit": "processes", "how": how}
+    for kind, key in (("transient", "tt"), ("persistent", "pt"), ("rndstr", "rndstr"), ("rndbytes", "rndbytes"), ("sid", "sid")):
+        seen = {}
+        for p in procs:
+            for j, t in enumerate(p.get(key) or []):
+                if t in seen and seen[t][0] != p["tag"]:
+                    ctx.oracle_fail("processes:%s:%s-repeats-across-processes" % (how, kind),
+                                    "%s value %r #%d of process %s equals #%d of process %s: the random source keeps state that the "
+                                    "processes share" % (kind, t, j, p["tag"], seen[t][1], seen[t][0]), rep)
+                    break
+                if t in seen and kind in ("transient", "persistent", "rndstr", "rndbytes", "sid"):
+                    ctx.oracle_fail("processes:%s:%s-repeats-within-process" % (how, kind),
+                                    "%s value %r issued twice in process %s" % (kind, t, p["tag"]), rep)
+                    break
+                seen[t] = (p["tag"], j)
+    # one text space per store: a transient text of one process must not be a persistent text of another either
+    both = {}
+    for p in procs:
+        for t in (p.get("tt") or []) + (p.get("pt") or []):
+            if t in both and both[t] != p["tag"]:
+                ctx.oracle_fail("processes:%s:identifier-text-repeats-across-processes" % how,
+                                "identifier text %r issued in process %s and in process %s (for different users)" % (t, both[t], p["tag"]), rep)
+                break
+            both[t] = p["tag"]
+
+
+def unit_processes(ctx):
+    """FRESHNESS ACROSS PROCESSES: the package is imported (and has issued identifiers: lazily created state
+    exists), then workers are forked; each issues on its own IdentDB; the parent goes on issuing afterwards"""
+    from saml2_tophat import s_utils
+    cases = []
+    for rnd, warm in enumerate((False, True)):
+        how = "fork-after-%s" % ("issuing" if warm else "import")
+        if warm:
+            pre = worker_history(_Rec(), "r%d-warmup" % rnd)
+        kids = fork_round(["r%d-w%d" % (rnd, k) for k in range(N_WORKERS)])
+        rec = _Rec()
+        tt, pt, case, _w = worker_history(rec, "r%d-parent" % rnd)
+        parent = dict(tag="r%d-parent" % rnd, tt=tt, pt=pt, case=case, fails=rec.fails, counts=rec.counts,
+                      rndstr=[s_utils.rndstr(24) for _ in range(3)], rndbytes=[s_utils.rndbytes(24) for _ in range(3)],
+                      sid=[s_utils.sid() for _ in range(2)])
+        procs = []
+        for p in kids + [parent]:
+            if "error" in p:
+                ctx.oracle_fail("processes:%s:worker-failed" % how, "worker %s: %s" % (p["tag"], p["error"][-600:]), {"unit": "processes", "how": how})
+                continue
+            procs.append(p)
+            cases.append(p["case"])
+            for k, what, rp in p["fails"]:
+                ctx.oracle_fail(k, "[process %s] %s" % (p["tag"], what), rp)
+            for k, n in p["counts"].items():
+                ctx.count("processes:" + k, n)
+            ctx.nontriv(("process", p["tag"], tuple(p["tt"]), tuple(p["pt"])))
+        if warm:
+            procs.append(dict(tag="r%d-warmup" % rnd, tt=pre[0], pt=pre[1]))
+        _check_disjoint(ctx, procs, how)
+        ctx.count("processes:%s:workers" % how, len(kids))
+        if rnd == 0 and procs:
+            ctx.sample({"process": procs[0]["tag"], "transient": procs[0]["tt"][:2], "persistent": procs[0]["pt"][:2]})
+    sp = spawn_round(2)
+    ok = []
+    for p in sp:
+        if "error" in p:
+            ctx.oracle_fail("processes:spawn:worker-failed", "fresh interpreter %s: %s" % (p["tag"], p["error"]), {"unit": "processes", "how": "spawn"})
+        else:
+            ok.append(p)
+            ctx.nontriv(("process", "spawn", tuple(p["tt"])))
+    _check_disjoint(ctx, ok, "spawn")
+    ctx.count("processes:spawn:workers", len(sp))
+    return cases
+
+
+def run_processes(ctx):
+    cases = unit_processes(ctx)
+    ctx.correspond("worker_histories", "Model.Ident", "show_history", "(cfg * list op)", cases)
+
+
 def _timed(ctx, name, f, *a):
     import time
     t0 = time.time()
@@ -677,6 +954,8 @@ def _timed(ctx, name, f, *a):
 
 def run(ctx):
     _timed(ctx, "codec", unit_codec, ctx)
+    _timed(ctx, "os_source", unit_os_source, ctx)
+    _timed(ctx, "processes", run_processes, ctx)
     with DigestPatch() as scripted:
         ctx.extra["digest_source"] = ("scripted: saml2_tophat.ident.sha256 replaced (self-check passed)" if scripted
                                       else "FALLBACK: the sha256 patch did not take; generated identifiers are read back")
@@ -739,6 +1018,16 @@ def replay(ctx, payload):
         if not isinstance(c, Exn):
             b = _call(ident_mod.decode, c)
             print("decode :", b if isinstance(b, Exn) else fields(b))
+        return 0
+    if inp.get("unit") == "os-source":
+        unit_os_source(ctx)
+        for k, what, _ in ctx.oracle_failures:
+            print("oracle:", k, "-", what)
+        return 0
+    if inp.get("unit") == "processes":
+        unit_processes(ctx)
+        for k, what, _ in ctx.oracle_failures:
+            print("oracle:", k, "-", what)
         return 0
     if inp.get("unit") == "history":
         with DigestPatch() as scripted:
